@@ -9,6 +9,18 @@ CHECKS = {
    technique="stateless bounded-exhaustive exploration of op sequences on the real crate (E1) against a list model",
    text="Every operation sequence over the append/batch/clear/reopen alphabets up to the stated depths (plus deep reduced-alphabet, seeded and page-scale families) is executed on the real crate over the journaling backend; after every step info/has/get on all indices are compared with a list model. Exhaustive within the bounds in the evidence; nothing is sampled.",
    note="Trusted: the harness's list model and journaling backend (the latter validated against the stock backends by C14); block contents limited to index-dependent patterns of sizes 0-3 (1 byte at page scale)."),
+ "C02": dict(cat="fault_enumeration", ref="DESIGN.md §2 C02",
+   technique="exhaustive crash-point enumeration (every journal prefix of the last call of every bounded history) on the real crate, before-or-after oracle",
+   text="For every history over the alphabets up to the stated depths (writer histories incl. make_read_only; replica histories of well-formed proof applications) and every prefix of the mutating storage operations issued by its last call, the crate is reopened on the crashed image: open must succeed, info/has/get must equal the list/replica model before or after the call (exactly before at 0 operations, exactly after at all), and every continuation of appends/clears/reopens must again satisfy the C01 oracle; thorough adds a second crash inside the next call.",
+   note="Fault model as in the statement: each storage operation atomic and persisted in issue order. Trusted: journaling backend (validated by C14), list model."),
+ "C07": dict(cat="fault_enumeration", ref="DESIGN.md §2 C07",
+   technique="exhaustive torn-write enumeration (byte cuts of the interrupted write at every crash point of every bounded history) on the real crate",
+   text="For every (history, crash point) whose next operation is a write: every proper byte prefix for writes <= 64 bytes, all framing-boundary cuts otherwise (thorough: every byte cut of every oplog write). Same oracle as C02: open succeeds, before-or-after, usable afterwards.",
+   note="The torn prefix overwrites in place and extends the file only as far as it reaches; earlier operations intact. Trusted: journaling backend, list model."),
+ "C10": dict(cat="fault_enumeration", ref="DESIGN.md §2 C10",
+   technique="exhaustive single I/O-fault injection (every storage operation of the last call, reads included) on the real crate",
+   text="For every history up to the stated depths and every storage operation (write, delete, truncate, read, length query) issued by its last call (open included), that operation fails once with an I/O error: the call must return Err (no Ok, no panic), and reopening must show the before-or-after state and stay usable.",
+   note="One fault per execution; the failed operation is not applied. Trusted: journaling backend, list model."),
 }
 
 PENDING = {
